@@ -52,7 +52,7 @@ theorem swap_length (f : Bmp) : (swapRedAndBlue f).palette.length = f.palette.le
     32-pixel-wide top-down picture, and the parser consumed the 1096 header/palette bytes plus the pixels -/
 theorem custom_ok {xs : Bytes} {f : Bmp} {rest : Bytes} (hh : Rd.custom xs = .ok (.ok f, rest)) :
     Loaded f ∧ f.ih.bitCount = 8 ∧ f.ih.width = 32 ∧ f.ih.height ≤ 0 ∧ f.palette.length = 256 ∧
-    xs.take 4 = tagPBMP ∧ xs.length = rest.length + (1096 + f.pixels.length) := by
+    xs.take 4 = tagPBMP ∧ xs.length = rest.length + (1096 + f.pixels.length) ∧ validateTs f = .ok () := by
   unfold Rd.custom at hh
   obtain ⟨sig, r1, a1, hh⟩ := bind_ok.mp hh
   obtain ⟨_, r2, a2, hh⟩ := bind_ok.mp hh
@@ -106,6 +106,7 @@ theorem custom_ok {xs : Bytes} {f : Bmp} {rest : Bytes} (hh : Rd.custom xs = .ok
     | ok u =>
       simp only [hv] at hh
       have := pure_ok.mp hh; injection this with ef er; injection ef with ef
+      have hv0 := hv
       unfold validateTs at hv
       split at hv
       · rename_i hcond
@@ -121,7 +122,7 @@ theorem custom_ok {xs : Bytes} {f : Bmp} {rest : Bytes} (hh : Rd.custom xs = .ok
         have hht : bm.ih.height ≤ 0 := by
           have e : bm.ih.height = -(ph : Int) := by rw [c9]; exact hneg
           rw [e]; omega
-        refine ⟨SL, hb8, hw32, hht, ?_, ?_, ?_⟩
+        refine ⟨SL, hb8, hw32, hht, ?_, ?_, ?_, hv0⟩
         · show (pal.map Color.swapRB).length = 256
           rw [List.length_map, P, hnp]
         · rw [← s1.1]; exact G2.1
